@@ -38,6 +38,13 @@ prop("C17", True, "seqmc", "exploration", "bounded-exhaustive enumeration of add
      "net.Addr -> sockaddr -> net.Addr for {tcp,udp,ip} x IP alphabet x all 65536 ports x zones, unix names x networks, invalid IP lengths, zone index round trip for every index of a range.",
      TRUST + "Zones compared by interface index on this host; the live clause (RemoteAddr/LocalAddr at every callback under churn) is decided by the scheduler-based engine unit when present in the evidence.", "DESIGN.md §5/C17")
 
+prop("C03", True, "sched", MC, "stateless model checking (preemption-bounded DFS under a cooperative scheduler) of the real poller and task queues on real epoll/eventfd",
+     "Every interleaving with <= 2 (quick) / 3 (thorough) preemptions of one polling loop and 1..3 producers calling Trigger on the real netpoll.Poller (default and poll_opt), scheduling points at every atomic, queue operation, eventfd read/write and epoll_wait; at quiescence every accepted task has run exactly once on the loop thread, in issue order for one producer's high-priority tasks, and the loop is still wakeable.",
+     TRUST + "SC interleavings; fairness rotation; kqueue pollers cannot run here. The engine-level seam (AsyncWrite/Wake/Close through the public API) is covered by the engine units when listed in the evidence.", "DESIGN.md §2, §5/C03")
+prop("C13", True, "sched", MC, "stateless model checking (preemption-bounded DFS) of the real lock-free queue with brute-force linearizability checking of every history",
+     "Every interleaving with <= 3 (quick) / 5 (thorough) preemptions, at single atomic load/CAS granularity, of 9-13 configurations of concurrent Enqueue/Dequeue (incl. a one-element queue and a lagging tail); each complete history checked against the sequential FIFO over all linearisation orders; no loss/duplication after a final drain; Length/IsEmpty at quiescence.",
+     TRUST + "SC interleavings (Go atomics); <= 4 threads, <= 6 operations.", "DESIGN.md §2, §5/C13")
+
 REASON_WIP = "check under construction in this build phase (machinery not committed yet)"
 for i in range(1, 21):
     id = "C%02d" % i
